@@ -386,10 +386,15 @@ impl PacketReceiver {
                     let window_delta = packet_id::sub(sequence_id, new_base_id);
 
                     if window_parent_lead == 0 || window_parent_lead > window_delta {
+                        if self.data_flags[flags_index] & flag_bit != 0 {
+                            // This packet has not been delivered: its channel parent, as claimed by
+                            // the sender, is not a packet of its channel. The window must not
+                            // advance past data which is still held.
+                            break;
+                        }
                         // println!("Forget sequence ID {}", sequence_id);
                         new_base_id = next_id;
                         // Window advancement implies that this packet has been delivered
-                        debug_assert!(self.data_flags[flags_index] & flag_bit == 0);
                         debug_assert!(self.data_entries[window_idx].data.is_none());
                     } else {
                         // Cease to consider advancing the window
